@@ -132,7 +132,9 @@ def registry():
                               'on_append': {'seq': [
                          # every member handed out is either the complete TLV as found in the payload, or -- for INTEGERs -- its value
                          'isinstance(item, bytes) ==> item == %s' % sl,
-                         '%s == p._buffer[p._bookmark:][:spec.der.tlv_size(p._buffer[p._bookmark:])]' % sl,
+                         'p._index == p._bookmark + spec.der.tlv_size(p._buffer[p._bookmark:]) and p._index <= len(p._buffer) and p._bookmark >= 0',
+                         '%s == p._buffer[p._bookmark:p._bookmark + spec.der.tlv_size(p._buffer[p._bookmark:])]' % sl,
+                         'p._buffer[p._bookmark:][:spec.der.tlv_size(p._buffer[p._bookmark:])] == p._buffer[p._bookmark:p._bookmark + spec.der.tlv_size(p._buffer[p._bookmark:])]',
                          'isinstance(item, bytes) ==> spec.der.tlv_ok(item, None)',
                          'isinstance(item, bytes) ==> spec.der.tlv_size(item) == len(item)',
                          'isinstance(item, bytes) ==> item[0] != 2',
